@@ -31,8 +31,8 @@ func (repo *TxRepository) MarkUnsafe(ctx context.Context, txid bitcoin.Hash32) (
 		return true, nil
 	}
 
-	repo.unconfirmed[txid] = newUnconfirmedTx(false, true, false)
-	return true, nil
+	// Not a relevant tx. Adding it would make it look relevant when it confirms.
+	return false, nil
 }
 
 // Mark an unconfirmed tx as being verified by a trusted node.
